@@ -199,10 +199,13 @@ def _run_ob(ob, tier, workdir):
             if isinstance(r, str): unit.want(r, all_overloads=True)
             else: unit.want(r[0], sig=r[1])
         from ctypes_ import parse_type
-        for ck in ob.copies:
-            unit.em.fc = None
-            unit.em.copy_helper(unit.em.canon(parse_type(ck)))
-            unit.em.deq_helper(unit.em.canon(parse_type(ck)), shallow=True)      # generated equality over EVERY field of the extracted struct (containers by size): frame checks
+        def _helpers(em):
+            for ck in ob.copies:
+                em.fc = None
+                em.copy_helper(em.canon(parse_type(ck)))
+                em.deq_helper(em.canon(parse_type(ck)), shallow=True)      # generated equality over EVERY field of the extracted struct (containers by size): frame checks
+        _helpers(unit.em)
+        unit.extra_requests = getattr(unit, 'extra_requests', []) + [_helpers]      # the second (may-throw) emission pass starts from a fresh emitter
         # circulator placeholders in the harness: @TYPE(f)@ @INC(f)@ @DEC(f)@ for a TopologyKernel factory function f
         circ = {}
         for mm in set(re.findall(r'@(?:TYPE|INC|DEC)\((\w+)\)@', ob.harness)):
